@@ -87,11 +87,13 @@ Theorem T01_dump : forall o prefix ops w' rs (d : dump_opts),
   fits o prefix ops w' ->
   forall fuel, (length (kept ops rs) < fuel)%nat ->
   dump_hex decompress d fuel (prefix ++ writer_bytes w') = Some (map dump_line_hex (filter (dump_keep d) (kept ops rs))) /\
-  dump_hex decompress (mkdo None None 0 0) fuel (prefix ++ writer_bytes w') = Some (map dump_line_hex (kept ops rs)).
+  dump_hex decompress (mkdo None None 0 0) fuel (prefix ++ writer_bytes w') = Some (map dump_line_hex (kept ops rs)) /\
+  (* text mode (no -x): every byte printable in the C locale as itself, the double quote escaped, anything else as backslash x NN *)
+  dump_text decompress d fuel (prefix ++ writer_bytes w') = Some (map dump_line_text (filter (dump_keep d) (kept ops rs))).
 Proof.
   intros o prefix ops w' rs d Hi Hs Hf fuel Hfuel.
   pose proof (T01_any_input o prefix ops w' rs Hi Hs Hf fuel Hfuel) as H.
-  split; [apply dump_hex_of_read_all; exact H|].
+  split; [apply dump_hex_of_read_all; exact H|]. split; [|apply dump_text_of_read_all; exact H].
   rewrite (dump_hex_of_read_all decompress _ fuel _ _ H), filter_keep_all. reflexivity.
 Qed.
 End C01.
